@@ -4,6 +4,7 @@ use std::{
     ffi::{OsStr, OsString},
     ops::Add,
     path::{Path, PathBuf},
+    sync::OnceLock,
 };
 /// Builder object for specifying the name and path of the log output file.
 ///
@@ -49,6 +50,8 @@ pub struct FileSpec {
     pub(crate) basename: String,
     pub(crate) o_discriminant: Option<String>,
     timestamp_cfg: TimestampCfg,
+    // the start time as it appears in the file names; determined once, when it is first needed
+    timestamp: OnceLock<String>,
     o_suffix: Option<String>,
     pub(crate) use_utc: bool,
 }
@@ -62,6 +65,7 @@ impl Default for FileSpec {
             basename: Self::default_basename(),
             o_discriminant: None,
             timestamp_cfg: TimestampCfg::Default,
+            timestamp: OnceLock::new(),
             o_suffix: Some(String::from("log")),
             use_utc: false,
         }
@@ -106,6 +110,7 @@ impl FileSpec {
                 o_discriminant: None,
                 o_suffix: p.extension().map(|s| s.to_string_lossy().to_string()),
                 timestamp_cfg: TimestampCfg::No,
+                timestamp: OnceLock::new(),
                 use_utc: false,
             })
         }
@@ -251,7 +256,7 @@ impl FileSpec {
             append_underscore_if_not_empty(&mut fixed_name_part);
             fixed_name_part.push_str(discriminant);
         }
-        if let Some(timestamp) = &self.timestamp_cfg.get_timestamp() {
+        if let Some(timestamp) = self.o_timestamp() {
             append_underscore_if_not_empty(&mut fixed_name_part);
             fixed_name_part.push_str(timestamp);
         }
@@ -467,9 +472,25 @@ impl FileSpec {
             .collect::<Vec<PathBuf>>()
     }
 
+    // The start time must be the same in all file names that are derived from this FileSpec
+    // (it was determined anew for every file name before)
+    fn o_timestamp(&self) -> Option<&String> {
+        match self.timestamp_cfg {
+            TimestampCfg::Default | TimestampCfg::Yes => Some(self.timestamp.get_or_init(|| {
+                self.timestamp_cfg.get_timestamp().unwrap(/* ok */)
+            })),
+            TimestampCfg::No => None,
+        }
+    }
+
+    // Makes sure that the start time is determined now
+    pub(crate) fn fix_timestamp(&self) {
+        self.o_timestamp();
+    }
+
     #[cfg(test)]
     pub(crate) fn get_timestamp(&self) -> Option<String> {
-        self.timestamp_cfg.get_timestamp()
+        self.o_timestamp().cloned()
     }
 }
 
